@@ -7,7 +7,7 @@ document that the property names (truncation at a byte offset, overwriting a byt
 classification of a damaged text: `wellformed` / `damagedAt p` are claimed only where that is certain
 from the construction; everything else is `unknown` and is not judged.  Core Lean only.
 -/
-namespace PolyVerif.Spec
+namespace PolyVerif.Spec.UniprotSpec
 open PolyVerif PolyVerif.Uniprot
 
 structure DocEntry where
@@ -143,4 +143,4 @@ def classify (d : Doc) (r : Rendered) (dm : Damage) : DClass :=
 def entriesBefore (d : Doc) (r : Rendered) (p : Nat) : List Entry :=
   ((d.entries.zip r.entryEnds).filter (fun x => x.2 ≤ p)).map (fun x => x.1.toEntry)
 
-end PolyVerif.Spec
+end PolyVerif.Spec.UniprotSpec
